@@ -479,11 +479,9 @@ func runC09(c *Ctx) {
 		}
 	}
 
-
 	// ---------- R09.11 backoff table under its mutex
 	c.Rule("R09.11", "E2", "qruntime.Adapter.backoffs (read by every worker) only under backoffsMu", 2)
 	c.LocksetReport("R09.11", p.Lockset(LockSpec{Rel: pkgQRuntime, Struct: "Adapter", Mutex: "backoffsMu", Guarded: []string{"backoffs"}}, pkgQRuntime), nil)
-
 
 	// ---------- R09.12 the item on offer is this iteration's head
 	c.Rule("R09.12", "E3", "Queue.Run: the item offered to consumers is built from the Peek of the same loop iteration (key and value) — nothing about the offer survives into the next iteration, so a Put that replaced the head's value is what gets delivered", 1)
